@@ -13,8 +13,9 @@ Open Scope N_scope.
    many crash - continue - crash rounds, for every value of every background-sync
    coin, for every torn-write block size bs (0 = none) and every sequence of
    torn-write draws, over the whole alphabet except create_dir_all /
-   remove_dir_all / remove_dir, that meets no known class (FsSafe), creates no
-   directory where a file was unlinked since the last crash (KindSwap) and whose
+   remove_dir_all, that meets no known class (FsSafe), creates no entry of one
+   kind where an entry of the other kind was removed since the last crash
+   (KindSwap) and whose
    crashes find every durable entry reachable through durable ancestors: every
    observation of the implementation — before, between and after the crashes —
    is the observation of the reference tree with the durable image substituted
@@ -88,15 +89,17 @@ Theorem c07_recreate_refuted :
 Proof. exact c07_recreate_refuted_lemma. Qed.
 
 Theorem c07_kind_swap_refuted :
+  dsafe 0 wd_kind_swap = false /\
   dspec_out 0 wd_kind_swap 7 = ODir /\ dimpl_out 0 wd_kind_swap 7 = OFile 1.
 Proof. exact c07_kind_swap_refuted_lemma. Qed.
 
 (* Non-vacuity: two crashes, a coin, a durable and a non-durable file, an
-   unsynced overwrite and an unsynced unlink that are rolled back. *)
+   unsynced overwrite and an unsynced unlink that are rolled back, a directory
+   removed, re-created and made durable by its own sync. *)
 Example c07_nonvacuous :
   forallb c07_op hd_demo = true /\ dsafe 0 hd_demo = true /\
   dimpl_out 0 hd_demo 10 = OBytes [65; 66; 67] /\ dimpl_out 0 hd_demo 11 = OBool false /\
-  dimpl_out 0 hd_demo 16 = OBytes [65; 66; 67; 89].
+  dimpl_out 0 hd_demo 20 = OBytes [65; 66; 67; 89] /\ dimpl_out 0 hd_demo 21 = ODir.
 Proof. vm_compute. repeat split; reflexivity. Qed.
 
 Example c07_torn_nonvacuous :
